@@ -8,21 +8,33 @@ from ..astu import (U, dotted, walk_shallow, fold, NotLiteral, fold_module_table
                     mono_str, call_name, calls_in, _num)
 from ..core import AnalysisError, Mutant, Rule, Twin
 from ..idioms import for_loops, target_names
-from ..tables import CODATA, NAME_VARIANTS, iupac_table
+from ..tables import CODATA, NAME_VARIANTS, iupac_table, IUPAC
 from .c01 import check_offsets, PARSING, PERIODIC
 
 ID = "C14"
 CHEM = "chempy/chemistry.py"
 ENGINES = ["E0 core", "E1 tables", "E4 linform"]
 TECHNIQUE = "literal-table comparison against an embedded IUPAC table + linear/monomial normal forms of the mass formulas (ast)"
-CLAIM = ("Decides: _elements agrees with the IUPAC table (118 symbols, names, abridged weights within 2e-4 relative, mass "
+CLAIM = ("Decides: _elements agrees with the IUPAC table (118 symbols, names, abridged weights within 2.5 units of the last common decimal, mass "
          "numbers within 4 u); derived tuples use the right columns; Z<->index offsets; mass = sum v*m[k-1] - v0*m_e; "
          "case-normalised lookup; mass fractions share one term.")
 DOES_NOT_DECIDE = "float rounding; masses supplied through data['mass']; additivity over formulas (follows from C01 + R3 only modulo arithmetic)"
 ASSUMPTIONS = ["embedded IUPAC abridged standard atomic weights (2013-2021 revisions agree within tolerance)",
                "CODATA electron mass 5.4858e-4 u"]
 
-REL_TOL = 2e-4
+REL_TOL = 2e-4  # (historic) superseded by _digit_tol
+
+
+def _decimals(txt):
+    txt = str(txt)
+    return len(txt.split(".")[1]) if "." in txt else 0
+
+
+def _digit_tol(ref_txt, value):
+    """2.5 units in the last decimal place that the reference and the repository value have in common:
+    IUPAC revisions move a weight by a few units of its last digit at most, a typo moves it by more."""
+    d = min(_decimals(ref_txt), _decimals(repr(float(value))))
+    return 2.5 * 10 ** (-d)
 ABS_TOL_BRACKET = 4.0
 
 
@@ -38,6 +50,7 @@ def r1_element_table(ctx):
     m, env = _env(ctx)
     el = env["_elements"]
     ref = iupac_table()
+    ref_text = {int(l.split()[0]): l.split()[3] for l in IUPAC.strip().splitlines()}
     anchor = PERIODIC + ":_elements"
     ctx.check(len(el) == 118, anchor, "rows=118", "_elements has %d rows, expected 118" % len(el))
     for z in range(1, min(len(el), 118) + 1):
@@ -59,7 +72,7 @@ def r1_element_table(ctx):
                     ok_mass = False
             else:
                 val = float(mass)
-                ok_mass = abs(val - w) <= (ABS_TOL_BRACKET if radio else REL_TOL * w)
+                ok_mass = abs(val - w) <= (ABS_TOL_BRACKET if radio else _digit_tol(ref_text[z], mass))
         except (ValueError, TypeError):
             ok_mass, val = False, mass
         ok_unc = isinstance(row[3], (int, float)) and row[3] >= 0 and (isinstance(mass, str) or row[3] < 0.02 * float(val))
@@ -303,6 +316,9 @@ MUTANTS = [
     Mutant("fractions-drop-coeff", [(CHEM, "return {k: substances[k].mass * v / tot_mass for k, v in stoichiometries.items()}", "return {k: substances[k].mass / tot_mass for k, v in stoichiometries.items()}")], "C14-R5", "same-term"),
     Mutant("accum-period", [(PERIODIC, "accum_period_lengths = (2, 10, 18, 36, 54, 86, 118)", "accum_period_lengths = (2, 10, 18, 36, 54, 68, 118)")], "C14-R6", "prefix"),
 ]
+
+MUTANTS.append(Mutant("weight-older-revision-Yb", [(PERIODIC, '"Ytterbium", 173.045, 0.010', '"Ytterbium", 173.054, 0.005')], "C14-R1", "Z=70"))
+MUTANTS.append(Mutant("weight-last-digits-Zn", [(PERIODIC, '"Zinc", 65.38', '"Zinc", 65.83')], "C14-R1", "Z=30"))
 
 TWINS = [
     Twin("electron-mass-more-digits", [(PERIODIC, "mass -= v * 5.489e-4", "mass -= v * 5.48579909e-4")]),
